@@ -310,9 +310,6 @@ def linear_api(op):
             if R is ec.INFINITY:
                 H.prove(True, "identity result")
                 return
-            X, Y, Z = R._PointJacobi__coords
-            H.prove(sand(0 <= X, X < p, 0 <= Y, Y < p, 0 <= Z, Z < p),
-                    "%s: stored coordinates of the result are canonical residues" % op)
             H.prove(sand(0 <= R.x(), R.x() < p, 0 <= R.y(), R.y() < p),
                     "%s: x() and y() of the result are in [0, p-1]" % op)
         finally:
@@ -445,13 +442,19 @@ def _check_point(ec, R, inf, x3, y3, p, what, y0):
         # a legacy affine Point handed back unchanged
         H.prove(sand(R.x() == x3, R.y() == y3), "%s (affine object) is the textbook sum" % what, known=known)
         return
-    X, Y, Z = R._PointJacobi__coords
-    H.prove(sand(0 <= X, X < p, 0 <= Y, Y < p, 0 < Z, Z < p), "%s: stored coordinates canonical, Z != 0" % what,
+    H.prove(sand(R.x() == x3, R.y() == y3), "%s: x(), y() are the textbook coordinates in [0,p-1]" % what,
             known=known)
-    zi = _inv_tab(Z, p)
-    H.prove(sand((X * zi % p) * zi % p == x3, ((Y * zi % p) * zi % p) * zi % p == y3),
-            "%s denotes the textbook sum" % what, known=known)
-    H.prove(sand(R.x() == x3, R.y() == y3), "%s: x(), y() are the textbook coordinates" % what, known=known)
+    A = R.to_affine()
+    H.prove(A is not ec.INFINITY and bool(sand(A.x() == x3, A.y() == y3)) if False else
+            (sand(A.x() == x3, A.y() == y3) if A is not ec.INFINITY else False),
+            "%s: to_affine() is the textbook point" % what, known=known)
+    S = R + R
+    D = R.double()
+    same = (S is ec.INFINITY) == (D is ec.INFINITY)
+    if same and S is not ec.INFINITY:
+        same = S == D
+    H.prove(same, "%s: using the result again (R + R == 2R) does not depend on its representation" % what,
+            known=known + [("C06-y0-as-identity", True)] if False else known)
 
 
 def _fixed_curves(p):
@@ -570,6 +573,37 @@ def replay_linear(inp):
             D = A.double()
             if S is ec.INFINITY or S.x() != D.x():
                 bad.append("P + P (second operand stored as y - p) != 2P")
+    # operands with x2 = x1 + (p+1)/2 (both z = 1): the mixed-addition result has Z3 = 1,
+    # so x()/y() hand the stored coordinates out unconverted
+    from ecdsa import numbertheory as nt
+    import random
+    rnd = random.Random(5)
+    a_, b_ = c.a(), c.b()
+    found = 0
+    for _ in range(400):
+        xa = rnd.randrange(p)
+        xb = (xa + (p + 1) // 2) % p
+        try:
+            ya = nt.square_root_mod_prime((xa ** 3 + a_ * xa + b_) % p, p)
+            yb = nt.square_root_mod_prime((xb ** 3 + a_ * xb + b_) % p, p)
+        except nt.SquareRootError:
+            continue
+        found += 1
+        A = ec.PointJacobi(c, xa, ya, 1)
+        B = ec.PointJacobi(c, xb, yb, 1)
+        want = eg.aff_add((xa, ya), (xb, yb), a_, p)
+        for R in (A + B, B + A, (-A) + B):
+            if R is ec.INFINITY:
+                continue
+            if not (0 <= R.x() < p and 0 <= R.y() < p):
+                bad.append("P + Q with x2 = x1 + (p+1)/2: x() = %d is not in [0, p-1]" % R.x())
+        R = A + B
+        if want is not None and (R.x() % p, R.y() % p) == want:
+            S, D = R + R, R.double()
+            if (S is ec.INFINITY) != (D is ec.INFINITY) or (S is not ec.INFINITY and S != D):
+                bad.append("(P+Q) + (P+Q) != 2(P+Q) for x2 = x1 + (p+1)/2")
+        if found >= 6:
+            break
     return bool(bad), "; ".join(sorted(set(bad))[:3]) or "no instance found on NIST256p"
 
 
